@@ -410,6 +410,12 @@ func (c *BoolCtx) ZeroExpr(x *Int) *BExpr {
 	if x.Lin.C != 0 && len(x.Lin.T) > 0 {
 		return c.CmpExpr(&CmpInfo{Op: "==", X: x, Y: NewConst(x.W, 0, false)})
 	}
+	// a zero-extended quantity is zero exactly when the quantity is
+	if len(x.Lin.T) == 1 && x.Lin.T[0].K == 1 && x.Lin.C == 0 {
+		if at := x.Lin.T[0].A; strings.HasPrefix(at.Op, "zext") && len(at.Args) == 1 && at.IteT == nil {
+			return c.ZeroExpr(LinInt(at.Args[0]))
+		}
+	}
 	// (T & low-mask) == 0 is T == 0 modulo the mask's width
 	if len(x.Lin.T) == 1 && x.Lin.T[0].K == 1 {
 		if at := x.Lin.T[0].A; at.Op == "and" && len(at.Args) == 2 {
